@@ -95,7 +95,8 @@ BUILTINS = {'len': len, 'bool': bool, 'tuple': tuple, 'list': list,
 # library functions that are pure functions of concrete text / numbers
 PURE_LIBRARY = {'unicodedata.normalize', 'unicodedata.name',
                 'unicodedata.category', 'unicodedata.lookup',
-                'string.capwords', 'math.floor', 'math.ceil'}
+                'string.capwords', 'math.floor', 'math.ceil',
+                'keyword.iskeyword', 'keyword.issoftkeyword'}
 
 
 class Interp:
